@@ -20,6 +20,9 @@ PUNCT = [":", ";", "{", "}", "[", "]", "(", ")", "/", "=", "\\", "'", ".", "+", 
 SPACE = [" ", "\t", "\n", "\r", "\r\n", "\n\n", "    ", "\f", "\v", "\x00", "\ufeff", "\u00a0", "\u2028"]
 IDENTS = ["A", "a", "_", "__", "Color", "x", "Packet", "Type", "packet_t", "a.b", "a.b.c", "base.Color", "self", "None", "int", "uint", "uintx", "true1", "é", "名前", "Proto", "c.name_prefix", "max_bytes"]
 ODD_NAMES = ["_", "__", "___", "_x", "x_", "_X_", "_3d", "_3d_point", "X9", "x9y", "ALLCAPS", "ALL_CAPS_", "lower", "camelCase", "PascalCase", "snake_case", "HTTP_Frame_", "a1b2", "A", "a", "I", "l", "O0", "Type", "Message", "Enum", "String", "Error", "main", "self", "cls", "this", "len", "id", "str", "list", "dict", "object", "None_", "NULL", "bool_", "int_", "uint", "int", "float", "double", "char", "void", "long", "short", "signed", "unsigned", "const_", "static", "struct", "union", "enum_", "typedef_", "return", "goto", "if", "else", "for", "while", "switch", "case", "default", "break", "func", "go", "chan", "map", "range", "package", "var", "interface", "class", "def", "from", "lambda", "pass", "global", "with", "as", "is", "in", "not", "and", "or", "async", "await", "bp", "s", "m", "ctx", "data", "di", "fds", "descriptor", "json", "field", "dataclass", "List", "Dict", "Union", "ClassVar", "IntEnum", "unique", "BYTES_LENGTH", "Encode", "Decode", "Size", "x" * 120]
+# names that are pathological for backtracking regular expressions (case converters, lint
+# rules): long runs of one character class followed by a character of another class
+ODD_NAMES += ["A" * 40 + "b", "A" * 40 + "1b", "AB" * 20 + "c", "a" * 40 + "B", "A" * 20 + "1" * 20 + "a", "x" + "_" * 40 + "y", "A9" * 20 + "z", "MAXCELLVOLTAGEDIFFERENCETHRESHOLDLIMITmV", "a1" * 24 + "B", "Ab" * 24 + "_", "_" + "A" * 36 + "a"]
 COMMENTS = ["// c", "//", "// \t", "/* c */", "# c", "///", "// é"]
 VOCAB = KEYWORDS + TYPES + NUMBERS + BOOLS + STRINGS + PUNCT + SPACE + IDENTS + COMMENTS
 
